@@ -535,6 +535,20 @@ fn c13(seed: u64, thorough: bool) -> Scenario {
         let gl = if g.rng.chance(1, 2) { format!("**/*.{ext}") } else { format!("**/{name}") };
         g.world.args.globs.push(gl);
     }
+    // an --ignore glob (naming nothing, or another file): in the usual flags-first spelling it sits
+    // right in front of the positional globs
+    if g.rng.chance(1, 4) {
+        let f = g.rng.below(g.world.files.len());
+        let path = g.world.files[f].path.clone();
+        let gl = match g.rng.below(4) {
+            0 => "vendor/**".to_string(),
+            1 => "third_party/**".to_string(),
+            2 if f != fi => path,
+            _ => "**/*.lock".to_string(),
+        };
+        g.world.args.ignore.push(gl);
+    }
+    g.world.args.flags_last = g.rng.chance(1, 4);
     let mut tags = vec![format!("kind={kind}"), format!("carrier={carrier}")];
     tags.extend(big_tags);
     let want_failed;
@@ -583,9 +597,12 @@ fn c13(seed: u64, thorough: bool) -> Scenario {
         }
     }
     let mut got = genw::expected_kind(&world);
-    if !world.args.globs.is_empty() && ((want_failed && got != "failed") || (!want_failed && got == "failed")) {
+    if !(world.args.globs.is_empty() && world.args.ignore.is_empty())
+        && ((want_failed && got != "failed") || (!want_failed && got == "failed"))
+    {
         // the globs changed the variant's intent (e.g. carrier file out of scope without a diff)
         world.args.globs.clear();
+        world.args.ignore.clear();
         got = genw::expected_kind(&world);
     }
     if want_failed && got != "failed" {
